@@ -89,7 +89,7 @@ def run_property(prop, tier, seed):
     known = load_known()
     known_by_ob = {}
     for k in known.get("findings", []):
-        if k.get("property") == prop or prop in k.get("properties", []):
+        if prop in k.get("properties", [k.get("property")]):
             known_by_ob[k["obligation"]] = k
 
     units = list(cfg.get("units", []))
@@ -177,9 +177,10 @@ def run_property(prop, tier, seed):
                     undecided.append("%s: vacuity canary %s was NOT rejected (contradictory requires / shim?)" % (uname, fid))
                 continue
             if kind == "finding":
-                if not relevant:
-                    continue
                 flabel = info.get("finding_label") or fid.split("__F_")[-1]
+                fcl = info["clauses"].get(flabel)
+                if prop not in ((fcl.props if fcl is not None and fcl.props else None) or info["props"]):
+                    continue
                 obid = "%s/%s#%s" % (uname, fid, flabel)
                 finding_obligations += 1
                 hit = [f for f in fl if f["label"] == flabel]
